@@ -17,26 +17,4 @@ CONSTANTS Clients = {"c1","c2","c3"}
   Dev = "none"
   EmitEdges = FALSE
 INVARIANT SimEmitBeh
-INVARIANT TypeOK
-INVARIANT ExclusiveSetAtMostOnce
-INVARIANT WrittenConsistent
-INVARIANT EvGhostAligned
-INVARIANT PushedEventsFlushedExactlyOnce
-INVARIANT FlusherFIFO
-INVARIANT CacheBounded
-INVARIANT ReductionCacheConsistent
-INVARIANT ReductionPutsSurvive
-PROPERTY ExclusiveSetNeverOverwrites
-PROPERTY SetDBPathExactlyOnce
-PROPERTY DbPathStable
-PROPERTY GetConnReflectsPath
-PROPERTY ClearDBPathUnsets
-PROPERTY GetReturnsLastSet
-PROPERTY FlushEmpties
-PROPERTY PopRemovesWhatItReturns
-PROPERTY AppendKeepsOrder
-PROPERTY FlushLeavesStackEmpty
-PROPERTY CacheMRU
-PROPERTY CacheEvictsOnlyLRU
-PROPERTY CacheNeverServesPurged
 
